@@ -41,6 +41,23 @@ func (m *c06Raw) Reset()         { m.p = nil }
 func (m *c06Raw) String() string { return fmt.Sprintf("%x", m.p) }
 func (m *c06Raw) ProtoMessage()  {}
 
+// c06Bad is a legacy message whose Marshal method fails (widening: the error return of
+// pbcmpl.marshal / pbcmpl.Marshal)
+type c06EncodeError struct{}
+
+func (c06EncodeError) Error() string { return "c06: message refuses to be marshalled" }
+
+type c06Bad struct{ c06Raw }
+
+func (m *c06Bad) Marshal() ([]byte, error) { return nil, c06EncodeError{} }
+
+type c06BadV struct {
+	c06Bad
+	ver string
+}
+
+func (m *c06BadV) GetVersion() string { return m.ver }
+
 type c06RawV struct {
 	c06Raw
 	ver string
@@ -182,6 +199,8 @@ func c06ErrClass(err error) int {
 		return 5
 	case c == c06ErrDecode || strings.Contains(c.Error(), "c06: body rejected"):
 		return 6
+	case strings.Contains(c.Error(), "c06: message refuses to be marshalled"):
+		return 7
 	}
 	return 9
 }
@@ -287,6 +306,18 @@ func init() {
 		r := c06NewReader(w.out, a[2].I64s(), 0, a[3].Bool())
 		steps, left := c06Walk(r, len(w.out))
 		return L(steps, left)
+	}
+	// widening: [[hasver, ver, payload], [[accept, fail], ...]] with a message whose Marshal method fails
+	// -> [n, errclass, bytes that reached the writer, HeaderSize(msg)]
+	Exec["pbcmpl.Marshal/encerr"] = func(a []V) string {
+		hasver, ver, payload := a[0].L[0].Bool(), a[0].L[1].Str(), a[0].L[2].Bytes()
+		var msg proto.Message = &c06Bad{c06Raw{p: payload}}
+		if hasver {
+			msg = &c06BadV{c06Bad{c06Raw{p: payload}}, ver}
+		}
+		w := &c06Writer{script: a[1].L}
+		n, err := pbcmpl.Marshal(w, msg)
+		return L(I(n), Int(c06ErrClass(err)), Bytes(w.out), Int(pbcmpl.HeaderSize(msg)))
 	}
 	// [kind, [hasver, ver, payload]]
 	Exec["pbcmpl.Marshal"] = func(a []V) string {
